@@ -468,6 +468,7 @@ pub enum Op {
     Validate(Vec<u32>),
     Accepting,
     FfBytes,
+    FfTokens,
     Rollback(usize),
     Reset,
     Invalidate,
@@ -483,6 +484,7 @@ impl Op {
             Op::Validate(ts) => tagged("validate", ts.iter().map(|t| int(*t)).collect()),
             Op::Accepting => tagged("accepting", vec![]),
             Op::FfBytes => tagged("ffbytes", vec![]),
+            Op::FfTokens => tagged("fftokens", vec![]),
             Op::Rollback(n) => tagged("rollback", vec![int(*n)]),
             Op::Reset => tagged("reset", vec![]),
             Op::Invalidate => tagged("invalidate", vec![]),
@@ -528,6 +530,10 @@ pub fn run_op(m: &mut Matcher, op: &Op) -> (Sx, Option<Vec<u32>>) {
         Op::FfBytes => {
             let b = m.compute_ff_bytes();
             (tagged("ok", vec![hex(&b)]), None)
+        }
+        Op::FfTokens => {
+            let b = m.compute_ff_tokens();
+            (tagged("ok", vec![ints(&b)]), None)
         }
         Op::Rollback(n) => match m.rollback(*n) {
             Ok(()) => (tagged("ok", vec![]), None),
@@ -665,6 +671,7 @@ impl Op {
             "validate" => Op::Validate(it[1..].iter().map(|a| sx_atom(a).parse().unwrap()).collect()),
             "accepting" => Op::Accepting,
             "ffbytes" => Op::FfBytes,
+            "fftokens" => Op::FfTokens,
             "rollback" => Op::Rollback(n(1)),
             "reset" => Op::Reset,
             "invalidate" => Op::Invalidate,
